@@ -135,3 +135,59 @@ C("mako.codegen:_Identifiers._check_name_exists", params={"self": "Idents", "col
   raises={"CompileException": {"when": _CLASH.replace("old(collection)", "collection"), "ensures": [("registered-anyway", "collection == dict_set(old(collection), node.funcname, node)")]}},
   props=["C06"], native_skip=True,
   note="a %def and a %def of one name may shadow each other; as soon as a block is involved the name must be unique")
+
+
+_IN_DEF = "any_isinstance(self.node, 'DefTag')"
+_IN_CALL = "any_isinstance(self.node, 'CallTag_CallNamespaceTag')"
+_NESTED_NAMED = "(not same(node, self.node) and not node.is_anonymous)"
+_TOP_CLASH = "(not node.is_anonymous and node.funcname in self.topleveldefs and not same(self.topleveldefs[node.funcname], node))"
+
+C("mako.codegen:_Identifiers.visitBlockTag", params={"self": "Idents", "node": "TagLike"},
+  requires=[("separate-sets", _SEP3),
+            ("entries-are-nodes", "forall(lambda k: implies(k in self.topleveldefs, self.topleveldefs[k] is not None) and implies(k in self.closuredefs, self.closuredefs[k] is not None), ty='Str')"),
+            ("a-block-is-a-block", "node.is_block"),
+            ("two-registries", "not same(self.topleveldefs, self.closuredefs)")],
+  modifies=["self.undeclared", "self.locally_declared", "self.argument_declared", "self.topleveldefs", "self.closuredefs",
+            "heap('f:Idents.')", "heap('dval:Str~Any')", "heap('ddom:Str~Any')", "fresh_heap('set:Str')"],
+  loops={0: {"inv": [("undeclared-so-far", "forall(lambda k: (k in self.undeclared) == (k in pre(self.undeclared) or (in_prefix(_s0, _i0, k) and k != 'context' and k not in self.declared and k not in self.locally_declared)), ty='Str')", "P"),
+                     ("others-untouched", "self.declared == pre(self.declared) and self.locally_declared == pre(self.locally_declared) and self.argument_declared == pre(self.argument_declared) and self.topleveldefs == pre(self.topleveldefs) and self.closuredefs == pre(self.closuredefs)", "P")],
+             "modifies": ["self.undeclared", "fresh_heap('set:Str')"]},
+         1: {"inv": [("arguments-so-far", "forall(lambda k: (k in self.argument_declared) == (k in pre(self.argument_declared) or in_prefix(_s1, _i1, k)), ty='Str')", "P"),
+                     ("others-untouched", "self.declared == pre(self.declared) and self.locally_declared == pre(self.locally_declared) and self.undeclared == pre(self.undeclared) and self.topleveldefs == pre(self.topleveldefs) and self.closuredefs == pre(self.closuredefs)", "P")],
+             "modifies": ["self.argument_declared"]},
+         2: {"inv": [("registration-kept", "implies(not node.is_anonymous, node.funcname in self.topleveldefs and same(self.topleveldefs[node.funcname], node))", "L"),
+                     ("same-objects", "same(self.undeclared, pre(self.undeclared)) and same(self.argument_declared, pre(self.argument_declared)) and same(self.locally_declared, pre(self.locally_declared)) and same(self.declared, pre(self.declared)) and same(self.topleveldefs, pre(self.topleveldefs)) and same(self.closuredefs, pre(self.closuredefs))", "P")],
+             "modifies": ["self.undeclared", "self.locally_declared", "self.argument_declared", "self.topleveldefs", "self.closuredefs", "heap('f:Idents.')", "heap('dval:Str~Any')", "heap('ddom:Str~Any')", "fresh_heap('set:Str')"]}},
+  ensures=[("a named block is accepted only outside defs and calls", "implies(%s, not %s and not %s)" % (_NESTED_NAMED, _IN_DEF, _IN_CALL)),
+           ("a named block's name was free in this template", "not old(%s)" % _TOP_CLASH)],
+  raises={"CompileException": {"when": "(%s and (%s or %s)) or %s or (node.is_anonymous and not same(node, self.node) and node.funcname in self.closuredefs and not same(self.closuredefs[node.funcname], node))" % (_NESTED_NAMED, _IN_DEF, _IN_CALL, _TOP_CLASH)},
+          "*": {}},
+  locals={"ident": "Str", "n": "ChildNode"}, props=["C06"], native_skip=True,
+  note="children are visited under the induction hypothesis (R3); what they do to the registries is not constrained here")
+from vrf.pyvc.spec import CONTRACTS as _C2
+_C2["mako.codegen:_Identifiers.visitBlockTag"].opaque_attrs = True     # self.node is an arbitrary parse-tree node (only its name is read, for the message)
+
+CLASSES["TagLike"].fields["is_root_"] = parse_ty("Bool")
+ASSUME("mako.parsetree:<tag>.is_root", params={"self": "TagLike"}, returns="Bool", ensures=[("field", "result == self.is_root_")],
+       note="DefTag.is_root(): the def is not nested in another def or call (a fact of the parse tree)")
+
+C("mako.codegen:_Identifiers.visitDefTag", params={"self": "Idents", "node": "TagLike"},
+  requires=[("separate-sets", _SEP3),
+            ("entries-are-nodes", "forall(lambda k: implies(k in self.topleveldefs, self.topleveldefs[k] is not None) and implies(k in self.closuredefs, self.closuredefs[k] is not None), ty='Str')"),
+            ("two-registries", "not same(self.topleveldefs, self.closuredefs)")],
+  modifies=["self.undeclared", "self.locally_declared", "self.argument_declared", "self.topleveldefs", "self.closuredefs",
+            "heap('f:Idents.')", "heap('dval:Str~Any')", "heap('ddom:Str~Any')", "fresh_heap('set:Str')"],
+  loops={0: {"inv": [("undeclared-so-far", "forall(lambda k: (k in self.undeclared) == (k in pre(self.undeclared) or (in_prefix(_s0, _i0, k) and k != 'context' and k not in self.declared and k not in self.locally_declared)), ty='Str')", "P"),
+                     ("others-untouched", "self.declared == pre(self.declared) and self.locally_declared == pre(self.locally_declared) and self.argument_declared == pre(self.argument_declared) and self.topleveldefs == pre(self.topleveldefs) and self.closuredefs == pre(self.closuredefs)", "P")],
+             "modifies": ["self.undeclared", "fresh_heap('set:Str')"]},
+         1: {"inv": [("arguments-so-far", "forall(lambda k: (k in self.argument_declared) == (k in pre(self.argument_declared) or in_prefix(_s1, _i1, k)), ty='Str')", "P"),
+                     ("others-untouched", "self.declared == pre(self.declared) and self.locally_declared == pre(self.locally_declared) and self.undeclared == pre(self.undeclared) and self.topleveldefs == pre(self.topleveldefs) and self.closuredefs == pre(self.closuredefs)", "P")],
+             "modifies": ["self.argument_declared"]},
+         2: {"inv": [("same-objects", "same(self.undeclared, pre(self.undeclared)) and same(self.argument_declared, pre(self.argument_declared)) and same(self.locally_declared, pre(self.locally_declared)) and same(self.declared, pre(self.declared)) and same(self.topleveldefs, pre(self.topleveldefs)) and same(self.closuredefs, pre(self.closuredefs))", "P")],
+             "modifies": ["self.undeclared", "self.locally_declared", "self.argument_declared", "self.topleveldefs", "self.closuredefs", "heap('f:Idents.')", "heap('dval:Str~Any')", "heap('ddom:Str~Any')", "fresh_heap('set:Str')"]}},
+  ensures=[("a def seen from outside: its unbound names (argument defaults, the body's free names) are demanded where it is declared; it binds nothing there",
+            "implies(not same(node, self.node), %s and self.argument_declared == old(self.argument_declared) and self.locally_declared == old(self.locally_declared))" % _DEMAND),
+           ("registered: a top-level def among the template's defs, a nested one among the closures of this scope",
+            "implies(not same(node, self.node), ite(node.is_root_ and not node.is_anonymous, node.funcname in self.topleveldefs and same(self.topleveldefs[node.funcname], node), node.funcname in self.closuredefs and same(self.closuredefs[node.funcname], node)))")],
+  raises={"CompileException": {}, "*": {}},
+  locals={"ident": "Str", "n": "ChildNode"}, props=["C04"], native_skip=True)
